@@ -222,6 +222,32 @@ type eCycle struct{}
 func (e *eCycle) Error() string { return "cycle" }
 func (e *eCycle) Unwrap() error { return e }
 
+// two distinct values that unwrap to each other, through Unwrap or through Cause
+type eCycle2 struct {
+	other *eCycle2
+	cause bool
+}
+
+func (e *eCycle2) Error() string { return "cycle2" }
+func (e *eCycle2) Unwrap() error {
+	if e.cause {
+		return nil
+	}
+	return e.other
+}
+func (e *eCycle2) Cause() error {
+	if !e.cause {
+		return nil
+	}
+	return e.other
+}
+
+// a value (not pointer) type that unwraps to itself: every step yields a fresh interface value
+type eValCycle struct{ n [2]int }
+
+func (e eValCycle) Error() string { return "value-cycle" }
+func (e eValCycle) Unwrap() error { return e }
+
 type eNum struct{ in error }
 
 func (e *eNum) Error() string { return "num" }
@@ -249,9 +275,26 @@ var builders = map[string]func(in error) error{
 	"typed-nil": func(in error) error { var p *eTypedNil; return &eUnwrap{p} },
 	"nil-inner": func(in error) error { return &eUnwrap{nil} },
 	"withcode":  func(in error) error { return drpcerr.WithCode(errors.New("wc"), 5) },
+	"cycle2": func(in error) error {
+		a, b := &eCycle2{}, &eCycle2{}
+		a.other, b.other = b, a
+		return a
+	},
+	"cycle2-cause": func(in error) error {
+		a, b := &eCycle2{cause: true}, &eCycle2{cause: true}
+		a.other, b.other = b, a
+		return a
+	},
+	"value-cycle": func(in error) error { return eValCycle{} },
 }
 
-var builderNames = []string{"plain", "unwrap", "cause", "cycle", "num", "str", "typed-nil", "nil-inner", "withcode"}
+var builderNames = []string{"plain", "unwrap", "cause", "cycle", "num", "str", "typed-nil", "nil-inner", "withcode", "cycle2", "cycle2-cause", "value-cycle"}
+
+// terminalLinks end a chain (nothing behind them is reachable); fatalLinks may take the whole
+// process down when mishandled (unbounded recursion is a fatal stack overflow, not a panic), so
+// chains ending in them are evaluated in a child process
+var terminalLinks = map[string]bool{"plain": true, "cycle": true, "typed-nil": true, "nil-inner": true, "withcode": true, "cycle2": true, "cycle2-cause": true, "value-cycle": true}
+var fatalLinks = map[string]bool{"cycle2": true, "cycle2-cause": true, "value-cycle": true}
 
 func buildChain(names []string) error {
 	var err error
@@ -475,11 +518,17 @@ func families(tier string) []seq.Family {
 			rec = func(cur []string) {
 				if len(cur) > 0 {
 					ctx.Count(1, 4, 0)
-					if m := chainCase(cur); m != "" {
+					var m string
+					if fatalLinks[cur[len(cur)-1]] && os.Getenv("VERIF_ISOLATED") == "" {
+						m = seq.RunIsolated("C13", "error-chains<=4", map[string][]string{"chain": cur})
+					} else {
+						m = chainCase(cur)
+					}
+					if m != "" {
 						ctx.Fail(m+" chain="+strings.Join(cur, ">"), map[string][]string{"chain": cur})
 					}
 				}
-				if len(cur) == depth {
+				if len(cur) == depth || (len(cur) > 0 && terminalLinks[cur[len(cur)-1]]) {
 					return
 				}
 				for _, n := range builderNames {
@@ -528,5 +577,5 @@ var _ = context.Background
 
 func init() {
 	seq.Register(&seq.Check{ID: "C13", Families: families, Budget: map[string]int{"quick": 120, "thorough": 900},
-		Notes: "C13 (sequential part): no-panic / bounded-allocation oracle on UnmarshalError, Reader.ReadPacket and drpcmetadata.Decode over all short byte strings, drpchttp.Context over all short header strings (1-2 headers), error chains of depth <=3 (4) over 9 link kinds (plain, Unwrap, Cause, self-cycle, numeric code, string code, typed nil, Unwrap()->nil, WithCode) through drpcerr.Code, MarshalError and the gateway, and grpc-web request bodies with every flag class x declared length {0,1,max-1,max,max+1,2^32-1} x actual length. ParseFrame totality is part of C08. Coverage-guided fuzzing (named in the property text) is a different technique family and is not done."})
+		Notes: "C13 (sequential part): no-panic / bounded-allocation oracle on UnmarshalError, Reader.ReadPacket and drpcmetadata.Decode over all short byte strings, drpchttp.Context over all short header strings (1-2 headers), error chains of depth <=3 (4) over 12 link kinds (plain, Unwrap, Cause, self-cycle, 2-cycles, value self-cycle, numeric code, string code, typed nil, Unwrap()->nil, WithCode) through drpcerr.Code, MarshalError and the gateway, and grpc-web request bodies with every flag class x declared length {0,1,max-1,max,max+1,2^32-1} x actual length. ParseFrame totality is part of C08. Coverage-guided fuzzing (named in the property text) is a different technique family and is not done."})
 }
